@@ -348,6 +348,8 @@ def exec_op(op, H, probes=None):
             if ent is None:
                 return {"skip": "no-handle"}
             kw = op_kwargs(op)
+            if op.get("asmodel"):
+                kw["asmodel"] = True
             if sem is not None:
                 kw["semantics"] = sem
             if cfg_obj is not None:
@@ -550,7 +552,8 @@ def ref_descriptor(op, creators):
     d = {k: v for k, v in op.items() if k not in ("out",)}
     if "h" in op:
         c = creators.get(op["h"])
-        d["creator"] = None if c is None else {k: v for k, v in c.items() if k != "out"}
+        # the creating call is replayed without its interruption (where the N-th line falls depends on warm caches)
+        d["creator"] = None if c is None else {k: v for k, v in c.items() if k != "out" and not (k == "fault" and v["kind"] == "interrupt")}
         d.pop("h")
     return d
 
@@ -601,6 +604,8 @@ def gen_call(rng, handles, models_only=False, allow_fault=True):
             op["start"] = rng.choice(STARTS.get(gg, [None]))
         if rng.random() < 0.25:
             op["sem"] = rng.choice(SEMS)
+        elif rng.random() < 0.2:
+            op["asmodel"] = True
         if rng.random() < 0.2:
             op["settings"] = rng.choice(SETTINGS_POOL)
         if rng.random() < 0.1:
@@ -613,6 +618,10 @@ def gen_call(rng, handles, models_only=False, allow_fault=True):
             op["start"] = rng.choice(STARTS.get(gg, [None]))
         if rng.random() < 0.25:
             op["sem"] = rng.choice(SEMS)
+        elif rng.random() < 0.25:
+            op["asmodel"] = True
+        if rng.random() < 0.2:
+            op["settings"] = rng.choice(SETTINGS_POOL)
     elif r < 0.75:
         op = {"op": "compile", "g": g, "name": rng.choice(NAMES), "asmodel": rng.random() < 0.4,
               "sem": rng.choice(SEMS) if rng.random() < 0.35 else "none", "settings": rng.choice(SETTINGS_POOL)}
@@ -705,6 +714,7 @@ def gen_spec(seed: int, mode: str | None = None) -> dict:
 
 # ------------------------------------------------------------------------------- running (in a forked child)
 def exec_history(spec):
+    gc.disable()  # collection of cycles only at the explicit points of the workload: one source of nondeterminism less
     H = {}
     out = []
     probes = {}
@@ -734,6 +744,7 @@ HOT = {"optimized", "ruleinfo", "lookahead", "find_cached_semantic_action", "bin
 
 
 def exec_threads(spec, decider):
+    gc.disable()  # a collection could run Python-level finalisers inside traced frames at an arbitrary line
     H = {}
     probes = {}
     prefix_out = []
@@ -894,7 +905,7 @@ def run(spec: dict, decider: Decider, keep_events: bool = False) -> RunResult:
             failed_before = False
             for i, (op, o) in enumerate(zip(spec["ops"], out["ops"])):
                 res = o["res"]
-                events.append([i, op_label(op), digest_of(res)])
+                events.append([i, op_label(op), digest_of(strip_private(res))])
                 if op["op"] in ("compile", "load"):
                     creators[op["out"]] = op
                 intr = bool(op.get("fault") and op["fault"]["kind"] == "interrupt")
@@ -903,7 +914,8 @@ def run(spec: dict, decider: Decider, keep_events: bool = False) -> RunResult:
                     what = sorted({d.split(":")[0] for d in diffs})
                     viol = Violation("model-mutated", f"op {i} ({op_label(op)}) changed handle {h} created by ({op_label(creators.get(h, {'op': '?'}))}): {diffs[:3]}",
                                      f"{op['op']}:{','.join(what)[:60]}")
-                if not intr and viol is None:
+                no_handle = isinstance(res, dict) and res.get("skip") == "no-handle"  # its creating call failed or was interrupted here
+                if not intr and not no_handle and viol is None:
                     ref = eval_reference(ref_descriptor(op, creators))
                     d = compare(res, ref)
                     if d is not None:
@@ -936,10 +948,10 @@ def run(spec: dict, decider: Decider, keep_events: bool = False) -> RunResult:
                 local_creators = dict(creators)
                 for ci, op in enumerate(calls):
                     res = out["results"][ti][ci]
-                    events.append([ti, ci, op_label(op), digest_of(res)])
+                    events.append([ti, ci, op_label(op), digest_of(strip_private(res))])
                     if op["op"] == "compile":
                         local_creators[op["out"]] = op
-                    if viol is None and res is not None:
+                    if viol is None and res is not None and not (isinstance(res, dict) and res.get("skip") == "no-handle"):
                         ref = eval_reference(ref_descriptor(op, local_creators))
                         d = compare(res, ref)
                         if d is not None:
